@@ -10,11 +10,16 @@ import re
 import shutil
 import subprocess
 import tempfile
+import threading
 import time
 
 VERIF = os.path.dirname(os.path.dirname(os.path.abspath(__file__)))
 SPEC_DIR = os.path.join(VERIF, 'spec')
 JAR = '/opt/veriftools/tla/tla2tools.jar:/opt/veriftools/tla/CommunityModules-deps.jar'
+
+
+_prep_lock = threading.Lock()
+_prepared = set()
 
 
 class MachineryError(Exception):
@@ -139,10 +144,13 @@ class TlcResult:
 def run_tlc(module, cfg, workdir, workers=None, coverage=False, simulate=None, depth=None, seed=None,
             timeout=3600, env=None, extra=(), dfs_queue=False, java_opts=()):
   """Runs TLC on spec/<module>.tla copied (with the rest of spec/) into workdir."""
-  for f in os.listdir(SPEC_DIR):
-    if f.endswith('.tla'):
-      shutil.copy(os.path.join(SPEC_DIR, f), os.path.join(workdir, f))
-  meta = os.path.join(workdir, 'meta.%d' % int(time.time() * 1000))
+  with _prep_lock:     # copy the specifications once per scratch directory (rounds run TLC concurrently)
+    if workdir not in _prepared:
+      for f in os.listdir(SPEC_DIR):
+        if f.endswith('.tla'):
+          shutil.copy(os.path.join(SPEC_DIR, f), os.path.join(workdir, f))
+      _prepared.add(workdir)
+  meta = tempfile.mkdtemp(prefix='meta.', dir=workdir)   # unique per run: rounds run TLC concurrently
   cmd = ['java', '-XX:+UseSerialGC', '-Xmx8g']  # ParallelGC is pathological here (10x slower, measured)
   if dfs_queue:
     cmd.append('-Dtlc2.tool.queue.IStateQueue=StateDeque')
